@@ -5,7 +5,7 @@
 From Coq Require Import ZArith List Bool.
 From PTK Require Import Lib.Sx Lib.Py Model.Document Model.BufferEdit Proofs.BufferEditFacts
   Proofs.BufferEditLines Proofs.BufferEditIndent Model.C02_DocQueries Model.C01_CaseWord
-  Proofs.C01_CaseWordFacts.
+  Proofs.C01_CaseWordFacts Proofs.C01_LastLine.
 Import ListNotations.
 Open Scope Z_scope.
 
@@ -126,6 +126,42 @@ Theorem C01_join_next_line : forall b sep pre line r,
     0 <= c'.
 Proof. exact join_next_line_spec. Qed.
 Print Assumptions C01_join_next_line.
+
+(* The same without the "not on the last line" hypothesis: it follows from the
+   shape of the text (the bisect-table row of the cursor is the number of
+   line endings before it - C02's coordinate theorem). *)
+Theorem C01_join_next_line_full : forall b sep pre line r,
+  Inv b -> line_split b pre line (NL :: r) ->
+  exists c',
+    join_next_line b sep = Ok (mkbuf (pre ++ line ++ sep ++ lstrip_by (Z.eqb SP) r) c') [] /\
+    0 <= c'.
+Proof. exact join_next_line_spec'. Qed.
+Print Assumptions C01_join_next_line_full.
+
+Theorem C01_join_on_last_line : forall b sep,
+  on_last_line (bdoc b) = true -> join_next_line b sep = Ok b [].
+Proof. exact join_next_line_last. Qed.
+Print Assumptions C01_join_on_last_line.
+
+(* insert_line_above / insert_line_below add exactly one line holding only the
+   (optional) margin of blanks; every other character is kept, in place; the
+   cursor ends on the new line behind the margin. *)
+Theorem C01_insert_line_above : forall b cm pre line post,
+  Inv b -> line_split b pre line post ->
+  exists m,
+    insert_line_above b cm = Ok (mkbuf (pre ++ m ++ NL :: line ++ post) (len pre + len m)) [] /\
+    forallb is_space m = true /\ (cm = false -> m = []).
+Proof. exact insert_line_above_spec. Qed.
+Print Assumptions C01_insert_line_above.
+
+Theorem C01_insert_line_below : forall b cm pre line post,
+  Inv b -> line_split b pre line post ->
+  exists m,
+    insert_line_below b cm =
+    Ok (mkbuf (pre ++ line ++ NL :: m ++ post) (len pre + len line + 1 + len m)) [] /\
+    forallb is_space m = true /\ (cm = false -> m = []).
+Proof. exact insert_line_below_spec. Qed.
+Print Assumptions C01_insert_line_below.
 
 (* indent / unindent (and every other row transform): rows a..b-1 (clipped to
    the line count) are transformed, every other line is kept in place. *)
